@@ -402,6 +402,8 @@ def coq_text(T):
     w("Definition known : list kentry := [")
     w(";\n".join(ents))
     w("].")
+    import c04_calls
+    w(c04_calls.coq_templates(T))
     return "\n".join(L) + "\n"
 
 
